@@ -466,11 +466,7 @@ def validate_geoh5(path):
         parents = {}
         for us, (cont, node) in flat.items():
             if us not in reach:
-                for sub in ("Data", "Groups", "Objects"):
-                    if sub in node and not hasattr(node[sub], "shape"):
-                        for cu in node[sub]:
-                            parents.setdefault(cu, []).append(us)
-                continue
+                continue  # an unreachable node is reported once as an orphan; its links do not make it anybody's parent
             for sub in ("Data", "Groups", "Objects"):
                 if sub in node and not hasattr(node[sub], "shape"):
                     for cu in node[sub]:
@@ -629,7 +625,14 @@ def gen_history_x(rng, length):
     groups = {("G", 0)}
     objs = set()
     pgn = [0]
+    copied = False
+    seen_keys = set()
     for op in base:
+        if op["op"] == "create":
+            k0 = (op["kind"], op["n"])
+            if k0 in seen_keys and copied:
+                continue  # the base generator's shadow does not know the copies: it cannot tell whether this key is free
+            seen_keys.add(k0)
         ops.append(op)
         o = op["op"]
         if o == "create":
@@ -678,6 +681,7 @@ def gen_history_x(rng, length):
                 e = rng.choice(pool)
                 q = rng.choice(sorted(groups))
                 ops.append({"op": "copy", "e": list(e), "q": list(q), "ids": None})
+                copied = True
             elif cands:
                 ob = rng.choice(sorted(cands))
                 ops.append({"op": "copy", "e": list(rng.choice(live_data[ob])), "q": list(rng.choice(sorted(objs))), "ids": None})
